@@ -2175,7 +2175,10 @@ impl CharacterData for XmlText {
         if self.length() < offset {
             Err(error::DomException::IndexSizeErr)?
         } else {
-            Ok(self.data.borrow().substring(offset..(offset + count)))
+            Ok(self
+                .data
+                .borrow()
+                .substring(offset..offset.saturating_add(count)))
         }
     }
 }
@@ -2191,10 +2194,14 @@ impl CharacterDataMut for XmlText {
     }
 
     fn delete_data(&self, offset: usize, count: usize) -> error::Result<()> {
-        if self.length() < (offset + count) {
+        let length = self.length();
+        if length < offset {
             Err(error::DomException::IndexSizeErr)?
         } else {
-            self.data.borrow_mut().delete(offset, count);
+            // A count that runs past the end deletes up to the end.
+            self.data
+                .borrow_mut()
+                .delete(offset, count.min(length - offset));
             Ok(())
         }
     }
@@ -2330,7 +2337,10 @@ impl CharacterData for XmlComment {
         if self.length() < offset {
             Err(error::DomException::IndexSizeErr)?
         } else {
-            Ok(self.data.borrow().substring(offset..(offset + count)))
+            Ok(self
+                .data
+                .borrow()
+                .substring(offset..offset.saturating_add(count)))
         }
     }
 }
@@ -2346,10 +2356,14 @@ impl CharacterDataMut for XmlComment {
     }
 
     fn delete_data(&self, offset: usize, count: usize) -> error::Result<()> {
-        if self.length() < (offset + count) {
+        let length = self.length();
+        if length < offset {
             Err(error::DomException::IndexSizeErr)?
         } else {
-            self.data.borrow_mut().delete(offset, count);
+            // A count that runs past the end deletes up to the end.
+            self.data
+                .borrow_mut()
+                .delete(offset, count.min(length - offset));
             Ok(())
         }
     }
@@ -2514,7 +2528,10 @@ impl CharacterData for XmlCDataSection {
         if self.length() < offset {
             Err(error::DomException::IndexSizeErr)?
         } else {
-            Ok(self.data.borrow().substring(offset..(offset + count)))
+            Ok(self
+                .data
+                .borrow()
+                .substring(offset..offset.saturating_add(count)))
         }
     }
 }
@@ -2530,10 +2547,14 @@ impl CharacterDataMut for XmlCDataSection {
     }
 
     fn delete_data(&self, offset: usize, count: usize) -> error::Result<()> {
-        if self.length() < (offset + count) {
+        let length = self.length();
+        if length < offset {
             Err(error::DomException::IndexSizeErr)?
         } else {
-            self.data.borrow_mut().delete(offset, count);
+            // A count that runs past the end deletes up to the end.
+            self.data
+                .borrow_mut()
+                .delete(offset, count.min(length - offset));
             Ok(())
         }
     }
